@@ -257,7 +257,11 @@ Definition spack1 (p : prim) (v : val) : res bytes :=
       | VBytes b => Ok (firstn n b ++ repeat 0 (n - length b))
       | _ => Raise StructError
       end
-  | PF _ => Raise Unmodelled
+  | PF w =>                                (* floats travel as their IEEE bit patterns *)
+      match v with
+      | VFloat z => if in_range 0 (256 ^ Z.of_nat w) z then Ok (be_encode w z) else Raise StructError
+      | _ => Raise Unmodelled
+      end
   end.
 
 Fixpoint spack (ps : list prim) (vs : list val) : res bytes :=
